@@ -105,6 +105,9 @@ func DecodeQuestion(p DNS, index int, buffer []byte) (question Question, off int
 		return Question{}, -1, err
 	}
 
+	if endq+4 > len(p) { // type and class must follow the name
+		return Question{}, -1, ErrParseFrame
+	}
 	question.Name = name
 	question.Type = binary.BigEndian.Uint16(p[endq : endq+2])    // 2 bytes
 	question.Class = binary.BigEndian.Uint16(p[endq+2 : endq+4]) // 2 bytes
@@ -180,6 +183,9 @@ func (e *DNSEntry) decodeRRs(count int, p DNS, offset int, buffer []byte) (int, 
 			return 0, false, fmt.Errorf("invalid label: %w", err)
 		}
 
+		if endq+10 > len(p) { // type, class, ttl and rdlength must follow the name
+			return 0, false, fmt.Errorf("truncated resource record: %w", ErrInvalidLen)
+		}
 		t := binary.BigEndian.Uint16(p[endq : endq+2]) // type
 		// class = binary.BigEndian.Uint16(p[endq+2 : endq+4])
 		ttl := binary.BigEndian.Uint32(p[endq+4 : endq+8]) // number of seconds the RR can be cached
